@@ -230,7 +230,7 @@ func c14Specs(seed int64) []c14Case {
 	// (b) directed payload lengths around varint / power-of-two / frame-count boundaries
 	for _, l := range c14Lens {
 		for _, k := range []int{1, 2, 3, 10, 11, 12, 60} {
-			add(c14chain.Spec{Len: l, K: k, Layout: []string{"schema", "tree", "schema-head"}[rng.Intn(3)], Fanout: 1 + rng.Intn(10), Shuffle: rng.Intn(3), Sum: pickSum(), Split: splits[rng.Intn(3)], Fill: "rand"})
+			add(c14chain.Spec{Len: l, K: k, Layout: []string{"schema", "tree", "schema-head", "anytree"}[rng.Intn(4)], Fanout: 1 + rng.Intn(10), Shuffle: rng.Intn(3), Sum: pickSum(), Split: splits[rng.Intn(3)], Fill: "rand"})
 		}
 	}
 	// payload length exactly k-1, k, k+1 (one byte per frame)
@@ -243,8 +243,10 @@ func c14Specs(seed int64) []c14Case {
 	for len(out) < n {
 		s := c14chain.Spec{Len: c14RandLen(rng), K: 1 + rng.Intn(60), Fanout: 1 + rng.Intn(10), Shuffle: rng.Intn(3), Sum: pickSum(), Split: splits[rng.Intn(3)], Fill: pickFill()}
 		switch r := rng.Intn(10); {
-		case r < 5:
+		case r < 3:
 			s.Layout = "tree"
+		case r < 5:
+			s.Layout = "anytree"
 		case r < 7:
 			s.Layout = "schema-head"
 		default:
@@ -276,13 +278,13 @@ func c14Process(rec *ev.Recorder, c c14Case) {
 		return
 	}
 	// a second payload with the same shape (frames of two payloads mixed)
-	os := c.Spec
-	os.Seed = c.Spec.Seed ^ 0x0f0f0f0f
-	os.Payload = nil
-	if os.Fill == "zero" {
-		os.Fill = "rand"
+	ospec := c.Spec
+	ospec.Seed = c.Spec.Seed ^ 0x0f0f0f0f
+	ospec.Payload = nil
+	if ospec.Fill == "zero" {
+		ospec.Fill = "rand"
 	}
-	other := c14chain.Build(os)
+	other := c14chain.Build(ospec)
 	rng := rand.New(rand.NewSource(c.Spec.Seed ^ 0xfa17))
 	for _, f := range chain.Faults(rng, c.Dense) {
 		if rec.Enough() {
@@ -291,7 +293,7 @@ func c14Process(rec *ev.Recorder, c c14Case) {
 		f := f
 		fc := c
 		fc.Fault = &f
-		fc.Other = &os
+		fc.Other = &ospec
 		c14RunCase(rec, fc, chain, other, cache)
 	}
 }
